@@ -277,6 +277,29 @@ func constsOnDerefTrue(fn *ssa.Function) strset {
 			continue
 		}
 		t := b.Succs[0]
+		// constants used on the true branch itself (appended, stored, passed on)
+		if len(t.Preds) == 1 {
+			for _, blk := range fn.Blocks {
+				if blk != t && !t.Dominates(blk) {
+					continue
+				}
+				for _, ins := range blk.Instrs {
+					if _, isDbg := ins.(*ssa.DebugRef); isDbg {
+						continue
+					}
+					if _, isPhi := ins.(*ssa.Phi); isPhi {
+						continue
+					}
+					for _, op := range ins.Operands(nil) {
+						if *op != nil {
+							if s, ok := constStr(*op); ok {
+								out.add(s)
+							}
+						}
+					}
+				}
+			}
+		}
 		// phis fed from the true successor
 		for _, blk := range fn.Blocks {
 			for _, ins := range blk.Instrs {
@@ -362,7 +385,8 @@ func trueLiteralsRead(fn *ssa.Function) strset {
 	return out
 }
 
-var reSection = regexp.MustCompile(`^\n?\[([^\]]+)\]\n?$`)
+// a line of a written constant that is a section header
+var reSection = regexp.MustCompile(`(?m)^\[([^\]\n]+)\]$`)
 
 func ruleSSALiterals(p *Prog, l *Ledger, tier string) {
 	const rule = "E10.A4-ssa-literals"
@@ -462,24 +486,27 @@ func ruleSSALiterals(p *Prog, l *Ledger, tier string) {
 	for _, fn := range []*ssa.Function{wr, info} {
 		for _, b := range fn.Blocks {
 			for _, ins := range b.Instrs {
-				cv, ok := ins.(*ssa.Convert)
-				if !ok {
+				// any string constant the writer uses (converted to bytes directly or concatenated first)
+				if _, isDbg := ins.(*ssa.DebugRef); isDbg {
 					continue
 				}
-				s, ok := constStr(cv.X)
-				if !ok {
-					continue
-				}
-				m := reSection.FindStringSubmatch(s)
-				if m == nil {
-					continue
-				}
-				n++
-				key := rule + "|section|" + m[1]
-				if sections[strings.ToLower(m[1])] {
-					l.Prove(rule, "", key, "", fmt.Sprintf("section header [%s] written by %s is a section the reader recognises", m[1], FnName(fn)))
-				} else {
-					l.Fail(rule, "", key, p.Pos(cv.Pos()), fmt.Sprintf("section header [%s] written by %s is not among the sections the reader recognises %v: the whole block is skipped on re-reading", m[1], FnName(fn), sections.sorted()))
+				for _, op := range ins.Operands(nil) {
+					if *op == nil {
+						continue
+					}
+					s, ok := constStr(*op)
+					if !ok {
+						continue
+					}
+					for _, m := range reSection.FindAllStringSubmatch(s, -1) {
+						n++
+						key := rule + "|section|" + m[1]
+						if sections[strings.ToLower(m[1])] {
+							l.Prove(rule, "", key, "", fmt.Sprintf("section header [%s] written by %s is a section the reader recognises", m[1], FnName(fn)))
+						} else {
+							l.Fail(rule, "", key, p.Pos(ins.Pos()), fmt.Sprintf("section header [%s] written by %s is not among the sections the reader recognises %v: the whole block is skipped on re-reading", m[1], FnName(fn), sections.sorted()))
+						}
+					}
 				}
 			}
 		}
